@@ -54,13 +54,13 @@ def key_str(addr, port):
 # ------------------------------------------------------------------------------------------------
 
 class Impl:
-    def __init__(self, own):
+    def __init__(self, own, bootstrap=False):
         self.own = own
         self.loop = asyncio.new_event_loop()
         self.now = 0
         self.loop.time = lambda: self.now
         self.pm = PeerManager(self.loop)
-        self.rt = TreeRoutingTable(self.loop, self.pm, own.to_bytes(48, 'big'))
+        self.rt = TreeRoutingTable(self.loop, self.pm, own.to_bytes(48, 'big'), is_bootstrap_node=bootstrap)
 
     def close(self):
         self.loop.close()
@@ -147,7 +147,7 @@ class Impl:
 # the property's own statement, evaluated on the implementation (independent of the model)
 # ------------------------------------------------------------------------------------------------
 
-def monitor_table(own, tab):
+def monitor_table(own, tab, bootstrap=False):
     if not tab:
         return 'no buckets'
     if tab[0]['lo'] != 0:
@@ -161,7 +161,7 @@ def monitor_table(own, tab):
             d = min(b['hi'], tab[i + 1]['lo'])
             return (f"buckets {i},{i + 1} not contiguous: distance {d} is covered "
                     f"{sum(1 for x in tab if x['lo'] <= d < x['hi'])} times")
-        if len(b['peers']) > K:
+        if len(b['peers']) > K and not bootstrap:
             return f"bucket {i} holds {len(b['peers'])} > K contacts"
         for (pid, _, _) in b['peers']:
             if not b['lo'] <= (pid ^ own) < b['hi']:
@@ -243,12 +243,26 @@ def execute(model, case, rp=True):
             kind = o[0]
             if kind == 't':
                 impl.now += o[1]
+                model.call('tick', dt=o[1])
                 out.count('time')
                 continue
             if kind in ('replied', 'failure', 'requested'):
                 getattr(impl.pm, {'replied': 'report_last_replied', 'failure': 'report_failure',
                                   'requested': 'report_last_requested'}[kind])(ip_str(o[1]), o[2] or None)
+                model.call(kind, addr=o[1], port=o[2])
                 out.count('pm:' + kind)
+                continue
+            if kind == 'pmq':
+                g = impl.pm.contact_triple_is_good(b'\x01' * 48, ip_str(o[1]), o[2] or None)
+                lr = impl.pm.get_last_replied(ip_str(o[1]), o[2] or None)
+                iobs = {'good': repr(g), 'lr': 'Stale' if (not lr or lr + 60 < impl.now) else
+                        'Fresh' if lr + 60 > impl.now else 'Edge'}
+                m = model.call('pm_query', addr=o[1], port=o[2])
+                out.count('pmq:' + iobs['good'] + ':' + iobs['lr'])
+                out.compared += 1
+                if vlib.canon(iobs) != vlib.canon(m):
+                    out.kind, out.what, out.at, out.impl, out.model = 'disagreement', 'C11.peer_manager', n, iobs, m
+                    return out
                 continue
             if kind == 'bad_peer':
                 try:
@@ -268,8 +282,10 @@ def execute(model, case, rp=True):
                 idv, addr, port, dead = int(o[1], 16), o[2], o[3], o[4]
                 facts = impl.facts()
                 iret, iprobed = impl.add(impl.mk(idv, addr, port), set(dead), remote_exc=bool(len(o) > 5 and o[5]))
-                m = model.call('add', dead=dead, **facts, **peer_fields(idv, addr, port))
-                iobs = {'ret': iret, 'probed': iprobed, 'table': impl.table()}
+                m = model.call('sadd', dead=dead, **peer_fields(idv, addr, port))
+                iobs = {'ret': iret, 'probed': iprobed, 'table': impl.table(),
+                        'facts': {k: sorted(v) for k, v in facts.items()}}
+                m['facts'] = {k: sorted(v) for k, v in m['facts'].items()}
                 bad = monitor_table(own, iobs['table']) or \
                     monitor_add(own, before, impl.contacts(), [idv, addr, port], set(dead), iret)
                 out.count('add:' + iret + (':probe-reply' if iprobed and iret == 'False' else
@@ -327,6 +343,39 @@ def execute(model, case, rp=True):
                 out.kind, out.what, out.at, out.impl, out.model = 'disagreement', 'C11.' + kind, n, iobs, m
                 return out
         return out
+    finally:
+        impl.close()
+
+
+def execute_bootstrap(case):
+    """implementation + monitor only, on a bootstrap-node table (first bucket of capacity 2^32; not modelled):
+    everything the property says except the K bound must still hold"""
+    own = int(case['own'], 16)
+    impl = Impl(own, bootstrap=True)
+    try:
+        for n, o in enumerate(case['ops']):
+            kind = o[0]
+            before = impl.contacts()
+            bad = None
+            if kind == 't':
+                impl.now += o[1]
+            elif kind in ('replied', 'failure', 'requested'):
+                getattr(impl.pm, {'replied': 'report_last_replied', 'failure': 'report_failure',
+                                  'requested': 'report_last_requested'}[kind])(ip_str(o[1]), o[2] or None)
+            elif kind == 'add':
+                idv, addr, port, dead = int(o[1], 16), o[2], o[3], o[4]
+                iret, _ = impl.add(impl.mk(idv, addr, port), set(dead))
+                bad = monitor_table(own, impl.table(), True) or \
+                    monitor_add(own, before, impl.contacts(), [idv, addr, port], set(dead), iret)
+            elif kind == 'remove':
+                iret = impl.remove(impl.mk(int(o[1], 16), o[2], o[3]))
+                bad = monitor_table(own, impl.table(), True) or (None if iret == 'None' else f'remove_peer raised {iret}')
+            elif kind == 'find':
+                key, count, sender = int(o[1], 16), o[2], (None if o[3] is None else int(o[3], 16))
+                bad = monitor_find(own, before, key, count, sender, impl.find_close(key, count, sender))
+            if bad:
+                return n, 'bootstrap node: ' + bad
+        return None
     finally:
         impl.close()
 
@@ -391,6 +440,9 @@ class Gen:
         own = rng.choice(SPECIAL_OWN) if rng.random() < 0.2 else rng.getrandbits(BITS)
         nclass = rng.randrange(1, 8)
         classes = []
+        if rng.random() < 0.15:          # a deep tree: consecutive prefix lengths, several contacts each
+            nclass = 0
+            classes = list(range(0, rng.randrange(8, 40)))
         for _ in range(nclass):
             c = rng.random()
             classes.append(rng.randrange(0, 6) if c < 0.5 else rng.randrange(0, BITS + 1) if c < 0.8
@@ -450,7 +502,7 @@ class Gen:
                     continue
                 elif c < 0.07 + 0.18 * p_replied * 3 and cons:
                     q = rng.choice(cons)
-                    o = [rng.choice(['replied', 'replied', 'replied', 'failure', 'requested']), q[1], q[2]]
+                    o = [rng.choice(['replied', 'replied', 'replied', 'failure', 'failure', 'requested', 'pmq']), q[1], q[2]]
                 elif c < 0.84 - self.w_remove:
                     d = self.distance(rng, classes, tab)
                     idv = d ^ own
@@ -633,12 +685,28 @@ def main(run):
     for _ in range(n_cases):
         case = gen.history(model)
         check_case(run, model, case, 'generated')
+    # bootstrap-node tables (capacity 2^32 in the first bucket) are outside the model: monitor only
+    for _ in range(vlib.scaled(run.tier, 12, 300)):
+        case = gen.history(model)
+        r = execute_bootstrap(case)
+        run.case(dict(case, bootstrap=True), nontrivial=True, sample=False, validated=True)
+        run.count('case:bootstrap-monitor-only')
+        if r:
+            run.violation(dict(case, bootstrap=True, ops=case['ops'][:r[0] + 1]), r[1],
+                          signature={'own': case['own'], 'ops': case['ops'][:r[0] + 1], 'bootstrap': True})
     run.partial = []
     model.close()
 
 
 def replay(run, case):
     model = vlib.Model('C11')
+    if case.get('bootstrap'):
+        r = execute_bootstrap(case)
+        run.case(case, nontrivial=True)
+        if r:
+            run.violation(case, r[1], signature={'own': case['own'], 'ops': case['ops'][:r[0] + 1], 'bootstrap': True})
+        model.close()
+        return
     case = {'own': case['own'], 'ops': case['ops']}
     check_case(run, model, case, 'replay')
     model.close()
